@@ -54,6 +54,9 @@ type CleanCase struct {
 	// link to src/main.c) is read-only for the user running spok, so that its entries cannot be
 	// removed. spok may fail; README.md and src/main.c are nobody's output and keep content and mode.
 	ROOut bool `json:"ro_out,omitempty"`
+	// CleanFails (with CleanTask): the user's clean task fails after its first command. It was run
+	// instead of spok's own cleaning all the same: spok itself removes nothing.
+	CleanFails bool `json:"clean_fails,omitempty"`
 }
 
 var cleanDepPool = []string{"build/*.o", "**/*.tmp", "src/main.c", "bin/app", "dist/**/*.js", "*.tmp", "b*/*", "README.md", "a/b/c.out"}
@@ -118,6 +121,7 @@ func genCleanBody(t *rapid.T) CleanCase {
 		}
 	}
 	c.CleanTask = rapid.IntRange(0, 3).Draw(t, "clean_task") == 3
+	c.CleanFails = c.CleanTask && rapid.IntRange(0, 2).Draw(t, "clean_fails") == 0
 	c.PreCache = rapid.Bool().Draw(t, "pre_cache")
 	c.NTasks = rapid.IntRange(1, 3).Draw(t, "ntasks")
 	c.BadGlob = rapid.IntRange(0, 7).Draw(t, "bad_glob") == 0
@@ -192,7 +196,11 @@ func (c CleanCase) source() string {
 		b.WriteString(" {\n    echo building\n}\n\n")
 	}
 	if c.CleanTask {
-		b.WriteString("task clean() {\n    echo cleaning >> $LOG\n}\n")
+		if c.CleanFails {
+			b.WriteString("task clean() {\n    echo cleaning >> $LOG\n    exit 3\n    echo not reached >> $LOG\n}\n")
+		} else {
+			b.WriteString("task clean() {\n    echo cleaning >> $LOG\n}\n")
+		}
 	}
 	return b.String()
 }
